@@ -14,6 +14,8 @@
      annotations   inspect.getfullargspec(func).annotations, in dict order, with 'return'
      docstring     raw __doc__ (missing / empty / some text), the documented parameters
                    (name, optional documented type), `returns.args[1:]` when a Returns section exists
+                   (Docstring.returns is the first Returns *or Yields* entry: _check_docstring never looks at
+                   returns.is_generator, so a Yields section acts as the Returns entry)
    A documented type carries its text (for the `'typing.' in type_` guard) and its parse.
 
    `_update_context` and `typing` are hand-modelled (DocstringTyping.v); the translator pins the
